@@ -59,12 +59,28 @@ def run(ctx):
     ctx.diff(area="notifier", driver="drv_c17", n={"quick": 100000, "thorough": 3000000}, stateful=True,
              trivial=lambda l, o: o.startswith("order-ok | rec=0"), tagger=tagger, theorem=th, timeout=240)
     # the same protocol with white-box dumps of productionMap / nameMap / batchTargets / currentBatch
-    # (representation detail: a difference only there is reported without a concrete failing input)
+    # (representation detail: a difference only there is reported without a concrete failing input).  The accessor finds
+    # the private fields by type; if it does not compile against the working tree (core builds the black-box fallback,
+    # tag nooverlay) or does not recognise the representation, the white-box area is skipped: the property does not
+    # constrain the representation.
+    probe = ctx.run_impl("nwb", ["reset", "dump 0"]) or ["", ""]
+    if "overlay_fallback" in ctx.extra or probe[-1] == "dump-unavailable":
+        ctx.extra["skipped_areas"] = ["nwb (white-box dump of the three maps): no white-box view of this working tree"]
+        ctx.extra.setdefault("overlay_fallback", "the white-box accessor does not recognise the representation")
+    else:
+        wb_diff(ctx)
+    race_oracle(ctx)
+
+
+def wb_diff(ctx):
     ctx.diff(area="nwb", driver="drv_c17", n={"quick": 40000, "thorough": 1000000}, stateful=True,
              trivial=lambda l, o: o.startswith("order-ok | rec=0"),
              model_only=lambda l: l.startswith("dump"), timeout=240,
              theorem="C17.maps_consistent is a theorem about the model's three association lists; the implementation's "
                      "maps differ from them on this history")
+
+
+def race_oracle(ctx):
     if ctx.harness("./cmd/c17", name="race", race=True, overlay=OVERLAY):
         ctx.impl_oracle("race", {"quick": 24, "thorough": 300}, name="race",
                         label="goroutines calling every method concurrently under -race; judge = conclusion of "
